@@ -7,11 +7,8 @@ import (
 	"sync"
 	"time"
 
-	"github.com/IBM/TSS/mpc/bls"
-	"github.com/IBM/TSS/mpc/ps"
 	tss "github.com/IBM/TSS/types"
 	math "github.com/IBM/mathlib"
-	"verif/world"
 )
 
 var Curve = math.Curves[1]
@@ -24,11 +21,16 @@ func IDs(n int) []uint16 {
 	return out
 }
 
+// factories are registered by bls.go / ps.go (bls.go is excluded from builds tagged psonly, which
+// compile mpc/ps against the mathlib version of its own go.mod).
+var factories = map[string]func(id uint16, msgLen int) tss.KeyGenerator{}
+
 func NewKG(backend string, id uint16, msgLen int) tss.KeyGenerator {
-	if backend == "ps" {
-		return &ps.TPS{Logger: world.NopLogger{}, Party: id, Curve: Curve, MessageLength: msgLen}
+	f := factories[backend]
+	if f == nil {
+		panic("cryptolib: backend " + backend + " not linked into this binary")
 	}
-	return &bls.TBLS{Logger: world.NopLogger{}, Party: id}
+	return f(id, msgLen)
 }
 
 // SendHook may rewrite what instance `from` sends (msg without the orchestrator's framing).
@@ -96,32 +98,4 @@ func Subsets(l []uint16, min, max int) [][]uint16 {
 		}
 	}
 	return out
-}
-
-// BLSSigners loads the shares into fresh signer instances.
-func BLSSigners(n, t int, shares map[uint16][]byte) (map[uint16]*bls.TBLS, error) {
-	out := map[uint16]*bls.TBLS{}
-	for _, id := range IDs(n) {
-		s := &bls.TBLS{Logger: world.NopLogger{}, Party: id}
-		s.Init(IDs(n), t, nil)
-		if err := s.SetShareData(shares[id]); err != nil {
-			return nil, err
-		}
-		out[id] = s
-	}
-	return out, nil
-}
-
-// PSSigners loads the shares into fresh PS signer instances.
-func PSSigners(n, t, msgLen int, shares map[uint16][]byte) (map[uint16]*ps.TPS, error) {
-	out := map[uint16]*ps.TPS{}
-	for _, id := range IDs(n) {
-		s := &ps.TPS{Logger: world.NopLogger{}, Party: id, Curve: Curve, MessageLength: msgLen}
-		s.Init(IDs(n), t, nil)
-		if err := s.SetShareData(shares[id]); err != nil {
-			return nil, err
-		}
-		out[id] = s
-	}
-	return out, nil
 }
